@@ -29,7 +29,7 @@ class C12(object):
 
     # ------------------------------------------------------------------ generation
     def gen(self, rng, tier):
-        n_cases = 150 if tier == 'quick' else 4000
+        n_cases = 150 if tier == 'quick' else 30000
         for _ in range(n_cases):
             yield self.gen_one(rng)
 
